@@ -979,6 +979,20 @@ def gen_entry(rng):
                                              [(den, 0), (-den, 0), (2 * den, 0)]))
         P.append([val(shape, t, den)])
         S.append(val(shape, x, den))
+    right = [j for j in range(size) if j not in wrong]
+    if right and wrong and rng.random() < 0.4:
+        # entries of very different magnitude: a huge entry that is right, next to small or zero entries that are wrong
+        j = rng.choice(right)
+        big = (rng.choice([100000, 250000, -400000]) * den, 0)
+        for s_ in range(ns):
+            P[s_][0]['ent'][j] = list(big)
+            S[s_]['ent'][j] = list(big)
+        for k in wrong:
+            if rng.random() < 0.5:                 # an exact zero that is answered with a lattice step
+                for s_ in range(ns):
+                    d = [S[s_]['ent'][k][0] - P[s_][0]['ent'][k][0], S[s_]['ent'][k][1] - P[s_][0]['ent'][k][1]]
+                    P[s_][0]['ent'][k] = [0, 0]
+                    S[s_]['ent'][k] = d
     m = rng.choice(['prop', 'prop', 'flat'])
     c['mode'] = {'k': 'prop', 'v': [0, 1]} if m == 'prop' else \
         {'k': 'flat', 'v': list(Fraction(rng.choice([0, 0, 1, 2, 3, 5, 7, 10]), 10).as_integer_ratio())}
@@ -1084,8 +1098,10 @@ def gen_entry_group(rng):
     return group
 
 
-def rand_value(rng, shape):
+def rand_value(rng, shape, p_zero=0.0):
     size = 1 if not shape else (shape[0] if len(shape) == 1 else shape[0] * shape[1])
+    if rng.random() < p_zero:
+        return val(shape, [(0, 0)] * size)
     return val(shape, [(rng.randint(-3, 3), 0) for _ in range(size)])
 
 
@@ -1110,7 +1126,7 @@ def gen_shape(rng):
         P = [[rand_value(rng, exp)] for _ in range(ns)]
     got = rng.choice([s for s in shapes if s != exp])
     c['evalerr'] = rng.random() < 0.15
-    x = rand_value(rng, got)
+    x = rand_value(rng, got, 0.35)                 # also wrongly shaped zeros
     c.update(P=P * (ns if len(P) == 1 else 1), S=[x] * ns)
     c['mode'] = {'k': 'flat', 'v': [1, 2]}
     return c
